@@ -103,7 +103,10 @@ GenLocs ==
       \cup {Plain(TRUE, t) : t \in SeqsN({"s", "o", "d", "a.txt", "..", ".", ""}, 4)}
       \cup {Plain(TRUE, t) : t \in SeqsN({"s", "..", "a.txt", ""}, 5)}
     \* relative spellings, taken from Cwd = /R/o
-      \cup {Plain(FALSE, t) : t \in SeqsUpTo({"s", "o", "a.txt", "..", ".", ""}, 3)}
+    \* (a spelling whose first segment is empty starts with a separator: it
+    \* is an absolute spelling, listed above, not a relative one)
+      \cup {Plain(FALSE, t) : t \in {q \in SeqsUpTo({"s", "o", "a.txt", "..", ".", ""}, 3) :
+                                       q = <<>> \/ q[1] # ""}}
       \cup {Plain(FALSE, t) : t \in SeqsN({"s", "d", "a.txt", ".."}, 4)}
     \* URL-looking strings
       \cup {URL(sc, ab, t) : sc \in Schemes \ {"none"}, ab \in BOOLEAN,
